@@ -24,6 +24,7 @@ type rangeLoop struct {
 	If     *ssa.If
 	// Counting: a `for i := 0; i < len(x.f); i++` loop; any load of the same field of the same object is the list
 	Counting bool
+	stable   int // 0 unknown, 1 the walked list field is not stored to inside the loop, -1 it is
 }
 
 // sameList: x is the list the loop walks.
@@ -31,12 +32,23 @@ func (rl *rangeLoop) sameList(x ssa.Value) bool {
 	if x == rl.Over {
 		return true
 	}
-	if !rl.Counting {
-		return false
-	}
+	// another load of the list field the loop walks, on the same object, while the loop does not replace the field
 	r1, b1 := loadedField(x)
 	r2, b2 := loadedField(rl.Over)
-	return r1 != "" && r1 == r2 && strip(b1) == strip(b2)
+	if r1 == "" || r1 != r2 || strip(b1) != strip(b2) || rl.IsMap {
+		return false
+	}
+	if rl.stable == 0 {
+		rl.stable = 1
+		eachInstr(rl.Fn, func(in ssa.Instruction) {
+			if st, ok := in.(*ssa.Store); ok && rl.inLoop(st.Block()) {
+				if fa, ok := st.Addr.(*ssa.FieldAddr); ok && fieldRef(fa) == r2 {
+					rl.stable = -1
+				}
+			}
+		})
+	}
+	return rl.stable == 1
 }
 
 // rangeLoops recognises go/ssa's lowering of `for ... := range X`.
@@ -80,6 +92,59 @@ func rangeLoops(fn *ssa.Function) []*rangeLoop {
 			out = append(out, rl)
 		}
 	}
+	return append(out, countingLoops(fn)...)
+}
+
+// countingLoops recognises `for i := 0; i < len(X); i++` (also `i < n` with n := len(X)): the spelling of a forward
+// range loop with an explicit index. Over is the measured list; when it is a load of a list field, any load of the
+// same field of the same object is the list (sameList), provided the loop does not store to that field.
+func countingLoops(fn *ssa.Function) []*rangeLoop {
+	var out []*rangeLoop
+	for _, b := range fn.Blocks {
+		if b.Comment != "for.loop" || len(b.Instrs) == 0 {
+			continue
+		}
+		ifi, ok := b.Instrs[len(b.Instrs)-1].(*ssa.If)
+		if !ok {
+			continue
+		}
+		cmp, ok := ifi.Cond.(*ssa.BinOp)
+		if !ok || cmp.Op != token.LSS {
+			continue
+		}
+		ph, ok := cmp.X.(*ssa.Phi)
+		if !ok || len(ph.Edges) != 2 || ph.Block() != b {
+			continue
+		}
+		zero, step := false, false
+		for _, e := range ph.Edges {
+			if k, isK := constInt(e); isK && k == 0 {
+				zero = true
+			} else if isPlusOne(e, ph) {
+				step = true
+			}
+		}
+		over, isLen := lenOf(cmp.Y)
+		if !zero || !step || !isLen {
+			continue
+		}
+		rl := &rangeLoop{Fn: fn, Header: b, Body: b.Succs[0], Done: b.Succs[1], Idx: ph, Over: over, If: ifi, Counting: true}
+		if ref, _ := loadedField(over); ref != "" {
+			replaced := false
+			eachInstr(fn, func(in ssa.Instruction) {
+				if st, ok := in.(*ssa.Store); ok && rl.inLoop(st.Block()) {
+					if fa, ok := st.Addr.(*ssa.FieldAddr); ok && fieldRef(fa) == ref {
+						replaced = true
+					}
+				}
+			})
+			if replaced {
+				continue
+			}
+		}
+		// the index is not assigned inside the body other than by the post statement (phi has exactly the two edges)
+		out = append(out, rl)
+	}
 	return out
 }
 
@@ -122,7 +187,7 @@ func (rl *rangeLoop) isElem(v ssa.Value) bool {
 		}
 	}
 	if ix, ok := v.(*ssa.Index); ok {
-		return ix.X == rl.Over && ix.Index == rl.Idx
+		return rl.sameList(ix.X) && ix.Index == rl.Idx
 	}
 	return false
 }
@@ -304,8 +369,8 @@ func ruleComparatorDiscipline(c *Ctx, rule string) {
 		})
 	}
 	c.info(rule, "population", "-", fmt.Sprintf("%d comparator calls, %d direct comparisons", nCmpCalls, nDirect))
-	if nCmpCalls < 5 {
-		c.undecided(rule, "floor", "-", fmt.Sprintf("only %d comparator call sites (confirmed by hand: >= 5): lookups by name bypass the comparator", nCmpCalls))
+	if nCmpCalls < 3 {
+		c.undecided(rule, "floor", "-", fmt.Sprintf("only %d comparator call sites (expected >= 3): lookups by name bypass the comparator", nCmpCalls))
 	}
 }
 
@@ -858,6 +923,46 @@ func ruleHeaderFind(c *Ctx, rule string) {
 	}
 	good := len(loops) == 1 && len(rangeLoops(f)) == 1
 	why := fmt.Sprintf("%d walks over m.headers", len(loops))
+	if len(loops) == 0 {
+		// through a position finder of the same message: pos, err := m.finder(name); return m.headers[pos], nil
+		for _, cs := range w.callsIn(f) {
+			call, isCall := cs.In.(*ssa.Call)
+			g := cs.In.Common().StaticCallee()
+			if !isCall || g == nil || !w.isMain(g) || g.Signature.Recv() == nil || !isParam(f, callArg(call, -1), 0) || !isParam(f, callArg(call, 0), 1) || errIndex(call) != 1 {
+				continue
+			}
+			if gok, _ := w.firstMatchIndexSelf(g, "\x00name-parameter"); !gok {
+				continue
+			}
+			keep := w.under(assumeAtom(errNil(call), true))
+			okAll, n := true, 0
+			for _, r := range returnsUnder(f, keep) {
+				n++
+				v := strip(r.Results[0])
+				hit := false
+				if a, ok := isDeref(v); ok {
+					if ia, ok := a.(*ssa.IndexAddr); ok && isResultOf(ia.Index, call, 0) {
+						if b, ok := isLoadOf(ia.X, "Message.headers"); ok && isParam(f, b, 0) {
+							hit = true
+						}
+					}
+				}
+				if !hit || !allVals(valuesUnder(f, r.Results[1], keep), isNilConst) {
+					okAll = false
+				}
+			}
+			bad := w.under(assumeAtom(errNil(call), false))
+			for _, r := range returnsUnder(f, bad) {
+				if !allVals(valuesUnder(f, r.Results[0], bad), isNilConst) {
+					okAll = false
+				}
+			}
+			if okAll && n > 0 {
+				c.ok(rule, "GetHeader/first-match", w.pos(f.Pos()), "returns the header at the position "+w.fname(g)+" finds: the first line the comparator accepts")
+				return
+			}
+		}
+	}
 	if good {
 		rl := loops[0]
 		bound := w.atom(rl.If.Cond).Key
@@ -916,54 +1021,7 @@ func ruleHeaderFind(c *Ctx, rule string) {
 // scanLoops returns the range loops of fn plus its counting loops `for i := 0; i < len(x.f); i++` over a list field
 // (Over is then the load of the field measured in the loop condition; the element is x.f[i] for any load of the same
 // field of the same object, provided the loop does not store to that field).
-func (w *World) scanLoops(fn *ssa.Function) []*rangeLoop {
-	out := rangeLoops(fn)
-	for _, b := range fn.Blocks {
-		if b.Comment != "for.loop" || len(b.Instrs) == 0 {
-			continue
-		}
-		ifi, ok := b.Instrs[len(b.Instrs)-1].(*ssa.If)
-		if !ok {
-			continue
-		}
-		cmp, ok := ifi.Cond.(*ssa.BinOp)
-		if !ok || cmp.Op != token.LSS {
-			continue
-		}
-		ph, ok := cmp.X.(*ssa.Phi)
-		if !ok || len(ph.Edges) != 2 {
-			continue
-		}
-		zero, step := false, false
-		for _, e := range ph.Edges {
-			if k, isK := constInt(e); isK && k == 0 {
-				zero = true
-			} else if isPlusOne(e, ph) {
-				step = true
-			}
-		}
-		over, isLen := lenOf(cmp.Y)
-		if !zero || !step || !isLen {
-			continue
-		}
-		ref, _ := loadedField(over)
-		if ref == "" {
-			continue
-		}
-		rl := &rangeLoop{Fn: fn, Header: b, Body: b.Succs[0], Done: b.Succs[1], Idx: ph, Over: over, If: ifi, Counting: true}
-		// the list field itself is not replaced inside the loop
-		replaced := false
-		for _, st := range w.fieldStores(fn, ref) {
-			if rl.inLoop(st.Block()) {
-				replaced = true
-			}
-		}
-		if !replaced {
-			out = append(out, rl)
-		}
-	}
-	return out
-}
+func (w *World) scanLoops(fn *ssa.Function) []*rangeLoop { return rangeLoops(fn) }
 
 // kvLoops: the loops of fn that walk a KeyValue list field of fn's receiver.
 func (w *World) kvLoops(fn *ssa.Function) []*rangeLoop {
